@@ -50,8 +50,8 @@ class Ctx:
         out, rc, err = core.run_lines(exe or self.harness, lines, env=env)
         return out, rc, err
 
-    def run_drv(self, lines, name='cbordrv'):
-        return core.run_lines(core.driver_exe(name), lines)
+    def run_drv(self, lines, name='cbordrv', args=()):
+        return core.run_lines([core.driver_exe(name)] + [str(a) for a in args], lines)
 
     def run_spec(self, lines):
         return core.run_lines(core.driver_exe('specdrv'), lines)
